@@ -1,8 +1,9 @@
 CONSTANTS HW = 10
-          Margins = {21}
+          Margins = {1, 3, 4}
           Anchors = {1, 2}
           NMax = 8
-          GenMod = 32
+          MCMod = 48
+          GenMod = 48
           TPad = 3
 INIT Init
 NEXT EvalGen
